@@ -51,3 +51,27 @@ Theorem C11_timegrid_keys :
   subset ["assets"; "timegrid"] portfolio_written = true.
 Proof. repeat split; vm_compute; reflexivity. Qed.
 Print Assumptions C11_timegrid_keys.
+
+(* ---------- the value layer (Codec.v): parameters of every form survive the round trip ---------- *)
+From Coq Require Import ZArith QArith.
+From EAO Require Import Codec.
+(* loading what was saved gives the normal form of the value: date arrays of any unit come back as nanosecond arrays holding the same
+   instants, everything else -- numbers, strings, dates, naive and zone-aware time stamps, numeric arrays, date indices, and lists /
+   dictionaries of those to any depth -- comes back unchanged *)
+Theorem C11_value_round_trip : forall v : pv, wf v -> deser (ser v) = norm v.
+Proof. exact deser_ser. Qed.
+Print Assumptions C11_value_round_trip.
+(* saving the loaded object reproduces the same JSON *)
+Theorem C11_save_load_save : forall v : pv, wf v -> ser (deser (ser v)) = ser v.
+Proof. exact save_load_save. Qed.
+Print Assumptions C11_save_load_save.
+(* and a second round trip changes nothing any more *)
+Theorem C11_load_is_stable : forall v : pv, wf v -> deser (ser (deser (ser v))) = deser (ser v).
+Proof. exact load_is_stable. Qed.
+Print Assumptions C11_load_is_stable.
+(* non-vacuity: a take dictionary with aware stamps, a date array in hours and a numeric array *)
+Example C11_values_nonvacuous :
+  let v := VDict [("start", VList [VStamp 1609459200%Z (Some "CET")]); ("end", VDateArr 3600000000000%Z [447072%Z; 447073%Z]);
+                  ("values", VArr [QArith_base.Qmake 5 1; QArith_base.Qmake 2 1])] in
+  wf v /\ deser (ser v) <> v /\ ser (deser (ser v)) = ser v.
+Proof. cbv zeta. split; [cbn; intuition discriminate|]. split; [vm_compute; discriminate|vm_compute; reflexivity]. Qed.
